@@ -77,7 +77,18 @@ def make_table(rows, variant, extra=True, genes=None):
     return df
 
 
+_OBJECTS = {}
+
+
 def make_metric(cls, wts):
+    """one metric object per (class, weights), reused for every call with that configuration"""
+    key = (cls, str(wts))
+    if key not in _OBJECTS:
+        _OBJECTS[key] = _new_metric(cls, wts)
+    return _OBJECTS[key]
+
+
+def _new_metric(cls, wts):
     from pyrepseq.metric import tcr_metric
     e, c, l = wts["edit"], wts["chain"], wts["loop"]
     kw = dict(insertion_weight=e[0], deletion_weight=e[1], substitution_weight=e[2])
@@ -208,7 +219,7 @@ def run(ctx):
             for doc in ctx.sample([d for d in res.printed if "cls" in d], 16000):
                 if "cls" in doc:
                     n += 1
-                    if doc["inclass"] == "table" and n % ((2 if name == "one" else 12) if q else 2):
+                    if doc["inclass"] == "table" and n % ((4 if name == "one" else 24) if q else 2):
                         continue
                     replay_doc(ctx, doc, n, genes=small)
                     ctx.traces += 1
